@@ -24,7 +24,7 @@ var kf *known.File
 
 func TestMain(m *testing.M) {
 	kf, _ = known.Load(ev.KnownFile())
-	rec.Rule("rapid state machine: histories of up to 60 steps over a small key space (4 packages x 6 version strings, three systems): AddVersion (new or repeated key, random attributes incl. Deleted, requirement lists incl. unseen packages) interleaved with Version/Versions/Requirements/MatchingVersions; oracle = map-based reference model compared on the whole key space after every step. One evaluation = one step with its full comparison. Non-trivial: the history re-adds an existing key with different attributes or requirements (and the comparison that follows looks that key up). Distinct = distinct history text.")
+	rec.Rule("rapid state machine: histories of up to 60 steps over a small key space (4 packages x 6 version strings, three systems): AddVersion (new or repeated key, random attributes incl. Deleted, requirement lists incl. unseen packages) interleaved with Version/Versions/Requirements/MatchingVersions; oracle = map-based reference model compared on the whole key space after every step. One evaluation = one step with its full comparison. Non-trivial: the history re-adds an existing key with different attributes or requirements (and the comparison that follows looks that key up). Distinct = distinct history text. Every lookup is repeated with a Requirement-typed key, which was never added.")
 	ev.Main(m, rec)
 }
 
